@@ -189,9 +189,9 @@ func init() {
 				return t
 			},
 			Exec: RunC09, Minimise: false,
-			Assume:   []string{"'an amount proportional to the input size' is taken as 1024 bytes per input byte plus 1 MiB: generous to per-section bookkeeping, far below any declared-size allocation under the small limits used", "mmap-backed OpenReader/OpenReadOnly are not exercised (SIGBUS on I/O error cannot be simulated); their io.ReaderAt constructors are"},
-			Real:     realAll, Stub: stubMedium, Schedule: "single task per case; child processes supervised by the driver",
-			Custom:   c09Custom, ReplayFn: c09Replay,
+			Assume: []string{"'an amount proportional to the input size' is taken as 1024 bytes per input byte plus 1 MiB: generous to per-section bookkeeping, far below any declared-size allocation under the small limits used", "mmap-backed OpenReader/OpenReadOnly are not exercised (SIGBUS on I/O error cannot be simulated); their io.ReaderAt constructors are"},
+			Real:   realAll, Stub: stubMedium, Schedule: "single task per case; child processes supervised by the driver",
+			Custom: c09Custom, ReplayFn: c09Replay,
 			ExpectProbes: []string{"c09:limit-case", "c09:entry=indexreadfrom", "c09:entry=resume:rw", "c09:entry=readonly"},
 		}
 	})
